@@ -302,6 +302,31 @@ def report(ctx, exe, task, notes, rej, d, seed, st):
     if not hit:
         ctx.log("finding not reproduced on re-run (not reported): %s %s" % (props, rej[1] if rej else ""))
 
+def selftest(ctx, segs, d):
+    """the trace spec must notice a tampered log: a changed count, a changed buffer byte, a dropped arming call"""
+    seg = None
+    for s in segs:
+        cbs = [e for e in s if e["e"] == "taskcb.begin" and e["nb"] > 0 and e["err"] == 0]
+        if cbs and any(e["e"] == "ev.post" for e in s) and s[0]["e"] == "tknew" and s[0]["kind"] == 0: seg = s; break
+    if seg is None: return 0
+    def tamper(kind):
+        out = []; done = False
+        for e in seg:
+            e = dict(e)
+            if not done and kind == "count" and e["e"] == "taskcb.begin" and e["nb"] > 0: e["nb"] += 1; done = True
+            elif not done and kind == "byte" and e["e"] == "taskcb.begin" and e["nb"] > 0:
+                m = list(e["mem"]); m[e["off"] - 1] = (m[e["off"] - 1] + 1) % 250; e["mem"] = m; done = True
+            elif not done and kind == "post" and e["e"] == "ev.post": done = True; continue
+            out.append(e)
+        return out
+    n = 0
+    for kind in ("count", "byte", "post"):
+        notes, rej, r = tlc_validate([tamper(kind)], d, "self_" + kind)
+        if rej is None and not any(x[1].startswith("PROPERTY") for x in notes):
+            raise common.Infra("selftest: a tampered trace (%s) was accepted without a finding" % kind)
+        n += 1
+    return n
+
 def run(ctx):
     ctx.level = "model_checking"
     d = common.scratch()
@@ -344,6 +369,7 @@ def run(ctx):
         if rc != 0 or bad: raise common.Infra("task_drv batch %d (%s) rc=%s %s\n%s" % (b, bld, rc, bad[:2], out[-1500:]))
         for name, _ in tasks: kinds[name] = kinds.get(name, 0) + 1
         validate_batch(ctx, exes[bld], tasks, evs, d, "b%d" % b, seed, st)
+        if b == 0: ctx.add(selftests_tampered_traces_rejected=selftest(ctx, segments(evs), d))
     ctx.add(traces_validated_against_impl=st["traces"], events_validated=st["events"], evaluations=st["traces"],
             distinct_nontrivial=st["traces"], scenario_kinds=kinds, builds=[b or "gcc-O1" for b in builds],
             trace_tlc_states=st["tlc_states"], reruns=st["reruns"], deviations_seen=st["devs"],
